@@ -106,8 +106,8 @@ def skipRecord (hdr : Byte) (rest : List Byte) : Option (List Byte) :=
   else if hdr.toNat = hRelocInfo then
     match rest with
     | r0 :: r1 :: r2 :: r3 :: e0 :: e1 :: e2 :: e3 :: s0 :: s1 :: s2 :: s3 :: rest' =>
-      let len := 16 * rd32 r0 r1 r2 r3 + 16 * rd32 e0 e1 e2 e3 + rd32 s0 s1 s2 s3
-      if len < 2147483648 then some (rest'.drop len) else none   -- `int Length` would overflow
+      -- `LargeWord Length` (< 2^37), handed to `fseek` limited to `LONG_MAX`: exact on an LP64 build, forward only
+      some (rest'.drop (16 * rd32 r0 r1 r2 r3 + 16 * rd32 e0 e1 e2 e3 + rd32 s0 s1 s2 s3))
     | _ => none
   else
     match rest with
